@@ -491,8 +491,61 @@ class FrameReader:
         return out
 
 
+def helper_summary_semantic(g, crate, fn):
+    """The same summary by interpretation: the helper is run with M::OPCODE as the opcode, the decoder `read_body` as an observation
+    point, buffers of two lengths and a range of size values; the body size handed to the decoder must be `size saturating- k` for one
+    k (-> size_arg) or the length of the buffer (-> len_arg) in every run. -> summary or None"""
+    from .minieval import Mini, Unsupported, Panic
+    from .intconv import INT_TYPES
+    names = [p[1] if H.tag(p) == "bind" else None for p in fn["params"]]
+    ints = [i for i, t in enumerate(fn["inputs"]) if t.replace("&", "").strip() in INT_TYPES]
+    others = [i for i in range(len(names)) if i not in ints]
+    if len(ints) != 2 or len(others) != 1:
+        return None
+    FB = {c: g.f(c) for c in ("wow_world_messages", "wow_world_base")}
+    for si, oi in ((ints[0], ints[1]), (ints[1], ints[0])):
+        bits = INT_TYPES[fn["inputs"][si].replace("&", "").strip()][0]
+        obs = []
+        ok = True
+        for blen in (7, 11):
+            for S in (0, 1, 2, 3, 4, 5, 6, 9, 100, (1 << bits) - 1):
+                calls = []
+                m = Mini(FB, crate)
+                m.consts = {"crate::traits::Message::OPCODE": 0x1234, "crate::Message::OPCODE": 0x1234}
+
+                def rb(a, calls=calls):
+                    calls.append(a)
+                    return ("Ok", ("decoded",))
+                m.overrides = {"::Message::read_body": rb, "::opcode_to_name": lambda a: "name"}
+                args = [None] * len(names)
+                args[others[0]] = [0x50 + j for j in range(blen)]
+                args[si], args[oi] = S, 0x1234
+                try:
+                    m.call_fn(fn["path"], args)
+                except (Unsupported, Panic, KeyError, TypeError, ValueError, IndexError, AttributeError):
+                    ok = False
+                    break
+                if len(calls) != 1 or len(calls[0]) != 2 or not isinstance(calls[0][1], int):
+                    ok = False
+                    break
+                obs.append((blen, S, calls[0][1]))
+            if not ok:
+                break
+        if not ok or not obs:
+            continue
+        for k in range(0, 9):
+            if all(v == max(S - k, 0) for _b, S, v in obs):
+                return {"size_arg": si, "k": k}
+        if all(v == b_ for b_, _S, v in obs):
+            return {"len_arg": others[0]}
+    return None
+
+
 def helper_summary(g, crate, fn):
     """read_server_body / read_client_body: which argument is the size and how much is subtracted before read_body"""
+    sem = helper_summary_semantic(g, crate, fn)
+    if sem is not None:
+        return sem
     for x in H.walk(fn["hir"]):
         if H.tag(x) == "call" and (H.call_path(x) or "").endswith("::read_body"):
             args = H.call_args(x)
